@@ -285,9 +285,21 @@ def reachesSelf (m : List (Str × List Str)) (target : Str) : Nat → Str → Bo
     | none => false
     | some others => others.any (fun o => o = target || reachesSelf m target fuel o)
 
-/-- `find_sections_subgroups_cycle(...).is_some()`. -/
+/-- everything reachable from `frontier` through `sections_subgroups` (breadth first; every round adds
+something new or stops, so as many rounds as there are names suffice). -/
+def subClosure (m : List (Str × List Str)) : Nat → List Str → List Str → List Str
+  | 0, _, acc => acc
+  | fuel + 1, frontier, acc =>
+    let next := dedup ((frontier.map fun s => (lookup s m).getD []).flatten.filter fun x => x ∉ acc)
+    if next.isEmpty then acc else subClosure m fuel next (acc ++ next)
+
+/-- `find_sections_subgroups_cycle(...).is_some()`: some section is reachable from itself. (Equivalent to
+`reachesSelf` for some key — a cycle exists iff a key on it reaches itself — but linear in the size of the table
+instead of in the number of paths, which a table with re-converging sub-groups makes exponential.) -/
 def hasSubgroupCycle (m : List (Str × List Str)) : Bool :=
-  m.any (fun kv => reachesSelf m kv.1 (m.length + 1) kv.1)
+  m.any fun kv =>
+    let kids := dedup ((lookup kv.1 m).getD [])
+    kv.1 ∈ subClosure m ((m.map (·.2)).flatten.length + m.length + 1) kids kids
 
 def atMostOne (l : List Bool) : Bool := (l.filter id).length ≤ 1
 
